@@ -89,6 +89,8 @@ def rebuild_problems(poly):
         return out
     try:
         ref = M.abstract(poly)
+    except M.Unmodelable:
+        return out  # NaN / inf coefficients: no exact model, nothing to compare
     except Exception as err:  # pylint: disable=broad-except
         return [f"cannot abstract: {err}"]
     routes = []
